@@ -959,7 +959,7 @@ def _cmp_rbe3(rep, got, inp):
 
 
 W_KINDS = ("plain", "um-indep", "um-dep", "um-mixed", "um-first-ind", "um-first-dep", "um-size",
-           "ind-not-in-table", "spoint-ind", "digit-gt-6", "dep-digit-0", "um-not-in-table")
+           "ind-not-in-table", "spoint-ind", "digit-gt-6", "dep-digit-0", "um-not-in-table", "single-grid")
 
 
 def _with_bystanders(rng, w):
@@ -1015,6 +1015,12 @@ def _plan_rbe3w(ctx, rng, items, kind):
     case = _rbe3_case(rng, w, part)
     if kind == "dep-digit-0":
         case["ddof"] = rng.choice([10, 120, 1203, 30, 406])
+    if kind == "single-grid":
+        # one independent grid with all six components (statically determinate; the call mk_net_drms makes for a
+        # single boundary grid), optionally with a UM_List that swaps dependent and independent grid
+        g0 = rng.choice([i for i in part if i != case["dep"]])
+        case["groups"] = [(rng.choice([123456, 123456, 654321, 142536]), rng.choice([None, 2.5]), [g0])]
+        case["ddof"] = rng.choice([123456, 123456, 135, 6, 246])
     ref = _rbe3_ref(w, case)
     um_kind = kind[3:] if kind.startswith("um-") and kind != "um-not-in-table" else None
     condmax = 1e6 if um_kind is None else 1e4
@@ -1024,6 +1030,8 @@ def _plan_rbe3w(ctx, rng, items, kind):
     if um_kind is not None and not _add_um(rng, w, case, ref, um_kind):
         ctx.skip("rbe3w: no well-conditioned UM_List of kind %s" % um_kind)
         return
+    if kind == "single-grid" and case["ddof"] == 123456 and rng.random() < 0.5:
+        _add_um(rng, w, case, ref, "indep")
     groups = [(d, wt, [ents[i]["id"] for i in grp]) for d, wt, grp in case["groups"]]
     used = {e["id"] for e in ents}
     sp_ids = [e["id"] for e in ents if e["kind"] == "sp"]
